@@ -12,6 +12,7 @@ import OcVerif.Driver.Beans
 import OcVerif.Driver.Sel
 import OcVerif.Driver.Stack
 import OcVerif.Driver.Trap
+import OcVerif.Driver.Sched
 /-!
 `ocmodel`: reads history lines `<comp> <id> : <body> => <implementation outputs>` on stdin,
 runs the Lean model on `<body>`, compares with the implementation's outputs and evaluates the
@@ -37,6 +38,7 @@ def dispatch (comp : String) : Option (String → String → Verdict) :=
   | "sel" => some Driver.Sel.drive
   | "stack" => some Driver.Stack.drive
   | "trap" => some Driver.Trap.drive
+  | "sched" => some Driver.Sched.drive
   | _ => none
 
 def handle (line : String) : String :=
